@@ -105,5 +105,15 @@ extern "C" void h_string(void)
 	b << String(t) << (const char*)t;
 	vp_assert(b.length() == 2 * n, "string written as its bytes");
 	for (int i = 0; i < 2 * n && i < b.length(); i++) vp_assert(b[i] == (byte)t[i % n], "string bytes");
+	// a String holding arbitrary bytes (an embedded NUL included) contributes exactly length() bytes
+	{
+		byte raw[4] = { nondet_u8(), nondet_u8(), nondet_u8(), 0x7e };
+		String z((const char*)raw, 4) ;
+		StreamBuffer c(endian_of(e));
+		c << (byte)1 << z << (byte)2;
+		vp_assert(z.length() == 4 && c.length() == 6, "a String contributes exactly its length in bytes");
+		for (int i = 0; i < 4 && c.length() == 6; i++) vp_assert(c[1 + i] == raw[i], "String bytes, embedded NUL included");
+		if (c.length() == 6) vp_assert(c[5] == 2, "what follows the string is in place");
+	}
 	vp_reach(3);
 }
